@@ -6,6 +6,9 @@ From AV Require Import Base Machine GroupInv GroupInv2 GroupInv3 GroupInv4 Group
 Definition sc_same (x x' : scope) : Prop :=
   s_active x' = s_active x /\ s_host x' = s_host x /\ s_parent x' = s_parent x.
 
+(* control states a task can be in right after its allocation *)
+Definition newctl (c : ctl) : Prop := c = CDone \/ c = CNew \/ c = CIdle.
+
 (* scopes below n: an inactive scope not in En, and an active scope not hosted by the acting task t0, keep
    active/host/parent; tasks below m other than t0 keep their scope pointer and control state *)
 Definition SFn (n m : nat) (t0 : tid) (En : sid -> Prop) (s s' : st) : Prop :=
@@ -13,13 +16,15 @@ Definition SFn (n m : nat) (t0 : tid) (En : sid -> Prop) (s s' : st) : Prop :=
   (forall c, c < n ->
      (s_active (scopes s c) = false -> ~ En c -> sc_same (scopes s c) (scopes s' c)) /\
      (s_active (scopes s c) = true -> s_host (scopes s c) <> Some t0 -> sc_same (scopes s c) (scopes s' c))) /\
-  (forall t, t < m -> t <> t0 -> k_cur (tasks s' t) = k_cur (tasks s t) /\ k_ctl (tasks s' t) = k_ctl (tasks s t)).
+  (forall t, t <> t0 ->
+     (t < m -> k_cur (tasks s' t) = k_cur (tasks s t) /\ k_ctl (tasks s' t) = k_ctl (tasks s t)) /\
+     (m <= t -> newctl (k_ctl (tasks s t)) -> newctl (k_ctl (tasks s' t)))).
 
 Lemma sc_same_refl x : sc_same x x.
 Proof. unfold sc_same. auto. Qed.
 
 Lemma SFn_refl n m (t0 : tid) (En : sid -> Prop) s : n <= nscope s -> m <= ntask s -> SFn n m t0 En s s.
-Proof. intros Hn Hm. refine (conj Hn (conj Hm (conj _ _))); [intros c _; split; intros; apply sc_same_refl|auto]. Qed.
+Proof. intros Hn Hm. refine (conj Hn (conj Hm (conj _ _))); [intros c _; split; intros; apply sc_same_refl|intros t _; auto]. Qed.
 
 Lemma SFn_trans n m (t0 : tid) (En : sid -> Prop) a b c : SFn n m t0 En a b -> SFn n m t0 En b c -> SFn n m t0 En a c.
 Proof.
@@ -29,7 +34,9 @@ Proof.
       destruct (Bi Hi He) as [F1 [F2 F3]]. unfold sc_same. rewrite F1, F2, F3. auto.
     + intros Ha Hh. destruct (Aa Ha Hh) as [E1 [E2 E3]]. rewrite <- E1 in Ha. rewrite <- E2 in Hh.
       destruct (Ba Ha Hh) as [F1 [F2 F3]]. unfold sc_same. rewrite F1, F2, F3. auto.
-  - intros t Ht Hne. destruct (A4 t Ht Hne) as [E1 E2]. destruct (B4 t Ht Hne) as [F1 F2]. rewrite F1, F2. auto.
+  - intros t Hne. destruct (A4 t Hne) as [Al Ag]. destruct (B4 t Hne) as [Bl Bg]. split.
+    + intros Ht. destruct (Al Ht) as [E1 E2]. destruct (Bl Ht) as [F1 F2]. rewrite F1, F2. auto.
+    + intros Ht H. apply Bg; auto.
 Qed.
 
 (* a block that leaves the scope table alone and changes at most the acting task's record (plus irrelevant
@@ -40,7 +47,7 @@ Lemma SFn_eq n m (t0 : tid) (En : sid -> Prop) s s' : n <= nscope s' -> m <= nta
 Proof.
   intros Hn Hm Es Ht. refine (conj Hn (conj Hm (conj _ _))).
   - intros c _. rewrite Es. split; intros; apply sc_same_refl.
-  - intros t _ Hne. apply Ht, Hne.
+  - intros t Hne. destruct (Ht t Hne) as [E1 E2]. split; [auto|]. intros _. now rewrite E2.
 Qed.
 
 Lemma SFn_same_tasks n m (t0 : tid) (En : sid -> Prop) s s' : n <= nscope s' -> m <= ntask s' -> scopes s' = scopes s ->
@@ -65,9 +72,10 @@ Proof.
   - intros c Hc. split.
     + intros Hi He. apply (fr_sc _ _ _ _ F). intros HCc. destruct (HC c HCc Hc) as [H _]. apply He, H, Hi.
     + intros Ha Hh. apply (fr_sc _ _ _ _ F). intros HCc. destruct (HC c HCc Hc) as [_ H]. apply Hh, H, Ha.
-  - intros t _ Hne. split.
-    + apply (fr_cur _ _ _ _ F). intros HTt. apply Hne, HT, HTt.
-    + pose proof (tview_inv _ _ (fr_tv _ _ _ _ F t)). tauto.
+  - intros t Hne. assert (Ec : k_ctl (tasks s' t) = k_ctl (tasks s t)) by (pose proof (tview_inv _ _ (fr_tv _ _ _ _ F t)); tauto).
+    split.
+    + intros _. split; [|exact Ec]. apply (fr_cur _ _ _ _ F). intros HTt. apply Hne, HT, HTt.
+    + intros _. now rewrite Ec.
 Qed.
 
 Lemma SFn_kstar_none n m (t0 : tid) (En : sid -> Prop) s s' : kstar none_s none_t s s' -> n <= nscope s -> m <= ntask s -> SFn n m t0 En s s'.
@@ -144,7 +152,7 @@ Proof.
   intros Hn Hm. refine (conj _ (conj Hm (conj _ _))).
   - rewrite ns_nscope. lia.
   - intros c Hc. rewrite ns_scope_old; [|lia]. split; intros; apply sc_same_refl.
-  - intros t _ _. auto.
+  - intros t _. auto.
 Qed.
 
 Lemma SFb_fresh_enter n m (t0 : tid) (En : sid -> Prop) s d sh :
@@ -154,12 +162,14 @@ Proof.
   apply SFn_scope_enter; [rewrite ns_nscope; lia|exact Hm|]. intros H. lia.
 Qed.
 
-Lemma SFb_talloc n m (t0 : tid) (En : sid -> Prop) s k ev : SFb n m t0 En s (talloc s k ev).
+Lemma SFb_talloc n m (t0 : tid) (En : sid -> Prop) s k ev : newctl (k_ctl k) -> SFb n m t0 En s (talloc s k ev).
 Proof.
-  intros Hn Hm. refine (conj Hn (conj _ (conj _ _))).
+  intros Hk Hn Hm. refine (conj Hn (conj _ (conj _ _))).
   - unfold talloc. cbn. lia.
   - intros c _. split; intros; apply sc_same_refl.
-  - intros t Ht _. unfold talloc. cbn [tasks]. rewrite upd_other; [auto|lia].
+  - intros t _. unfold talloc. cbn [tasks]. split.
+    + intros Ht. rewrite upd_other; [auto|lia].
+    + intros _ H. unfold upd. destruct (Nat.eqb_spec t (ntask s)); [exact Hk|exact H].
 Qed.
 
 Lemma SFb_suspend_on n m (t0 : tid) (En : sid -> Prop) s f : SFb n m t0 En s (suspend_on s t0 f).
@@ -234,7 +244,7 @@ Lemma SFb_spawned n m (t0 : tid) (En : sid -> Prop) s g sf : SFb n m t0 En s (sp
 Proof.
   rewrite spawned_eq. cbn zeta. speel SFb_same; auto. speel SFb_restart.
   speel SFb_same; auto. speel SFb_keeps; [|apply keeps_tasks].
-  eapply SFb_trans; [apply (SFb_ns n m t0 En s None false)|apply SFb_talloc].
+  eapply SFb_trans; [apply (SFb_ns n m t0 En s None false)|apply SFb_talloc]. right; left. reflexivity.
 Qed.
 
 Lemma SFb_aexit_raise n m (t0 : tid) (En : sid -> Prop) s g e : SFb n m t0 En s (fst (aexit_raise s t0 g e)).
@@ -286,7 +296,10 @@ Definition entered (s : st) (o : op) : sid -> Prop :=
   | AEnter _ c => eq c
   | AGroupEnter _ g => eq (g_scope (groups s g))
   | ARun (HStep t) | ARun (HWake t _) =>
-      match k_ctl (tasks s t) with CNew => eq (k_hscope (tasks s t)) | _ => none_s end
+      match k_ctl (tasks s t), k_group (tasks s t) with
+      | CNew, Some _ => eq (k_hscope (tasks s t))
+      | _, _ => none_s
+      end
   | _ => none_s
   end.
 
@@ -376,12 +389,11 @@ Proof. unfold incs. speel SFb_set_running. apply SFb_upd_self. Qed.
 Lemma SFb_event_unwait n m (t0 : tid) (En : sid -> Prop) s e fo : SFb n m t0 En s (event_unwait s e fo).
 Proof. destruct fo; sby_eq. Qed.
 
-Lemma SFb_resume n m s0 t fo :
-  SFb n m t (match k_ctl (tasks s0 t) with CNew => eq (k_hscope (tasks s0 t)) | _ => none_s end) s0
-      (fst (resume s0 t fo)).
+Lemma SFb_resume n m (En : sid -> Prop) s0 t fo :
+  (k_ctl (tasks s0 t) = CNew -> k_group (tasks s0 t) <> None -> En (k_hscope (tasks s0 t))) ->
+  SFb n m t En s0 (fst (resume s0 t fo)).
 Proof.
-  rewrite resume_unfold. cbn zeta.
-  set (En := match k_ctl (tasks s0 t) with CNew => eq (k_hscope (tasks s0 t)) | _ => none_s end).
+  intros HEn. rewrite resume_unfold. cbn zeta.
   pose proof (SFb_incs n m En s0 t) as B.
   set (s := incs s0 t) in *. set (inc := snd (incoming s0 t fo)).
   assert (Hh : k_hscope (tasks s t) = k_hscope (tasks s0 t)).
@@ -391,11 +403,13 @@ Proof.
   - destruct inc as [e|]; cbn [fst].
     + speel SFb_finish_task. apply SFb_upd_self.
     + speel SFb_set_running. speel SFb_park.
-      destruct (k_group (tasks (upd_task s t (tk_started true)) t)).
-      * eapply SFb_trans; [apply SFb_upd_self|]. apply SFb_scope_enter. intros _. unfold En.
+      assert (Eg : k_group (tasks (upd_task s t (tk_started true)) t) = k_group (tasks s0 t)).
+      { tcase t t; [|contradiction]. cbn. unfold s. destruct (incs_cview s0 t t) as [V _]. pose proof (cview_inv _ _ V). tauto. }
+      rewrite Eg. destruct (k_group (tasks s0 t)) eqn:Eg0.
+      * eapply SFb_trans; [apply SFb_upd_self|]. apply SFb_scope_enter. intros _.
         assert (E : k_hscope (tasks (upd_task s t (tk_started true)) t) = k_hscope (tasks s t))
           by (tcase t t; [reflexivity|contradiction]).
-        rewrite E, Hh. reflexivity.
+        rewrite E, Hh. apply HEn; [reflexivity|congruence].
       * apply SFb_upd_self.
   - cbn [fst]. speel SFb_set_running. speel SFb_park. destruct inc; [apply SFb_upd_self|apply SFb_refl].
   - destruct k as [| |c].
@@ -471,27 +485,30 @@ Proof.
 Qed.
 
 (* the new root task has the fresh id ntask s >= m: it is outside the task domain *)
+Lemma ctl_after_park s t : k_ctl (tasks (park s t) t) = CIdle.
+Proof. unfold park. rewrite new_fut_eq. tcase t t; [reflexivity|contradiction]. Qed.
+
 Lemma SFb_new_root n m (t0 : tid) (En : sid -> Prop) s : m <= ntask s -> SFb n m t0 En s (fst (new_root s)).
 Proof.
   intros Hm0 Hn Hm. unfold new_root. cbn [fst].
   change (SFn n m t0 En s (set_running (park (talloc s root_rec false) (ntask s)) None)).
   set (s1 := talloc s root_rec false).
-  assert (A : SFn n m t0 En s s1) by (apply SFb_talloc; auto).
+  assert (A : SFn n m t0 En s s1) by (apply SFb_talloc; auto; right; right; reflexivity).
   destruct (SFn_bounds _ _ _ _ _ _ A) as [Hn1 Hm1].
   eapply SFn_trans; [exact A|].
-  (* park acts on task ntask s, which is >= m *)
   assert (P : SFn n m (ntask s) En s1 (set_running (park s1 (ntask s)) None)).
   { apply (SFb_trans n m (ntask s) En s1 (park s1 (ntask s))); [apply SFb_park|apply SFb_set_running|exact Hn1|exact Hm1]. }
   destruct P as [P1 [P2 [P3 P4]]]. refine (conj P1 (conj P2 (conj _ _))).
   - intros c Hc. destruct (P3 c Hc) as [Pi Pa]. split; [exact Pi|].
-    intros Ha Hh. 
-    (* scopes are untouched by park: both clauses follow from equality *)
+    intros Ha Hh.
     assert (Es : scopes (set_running (park s1 (ntask s)) None) = scopes s1).
     { cbn [set_running scopes]. unfold park. rewrite new_fut_eq. cbn [upd_task set_tasks scopes].
       unfold suspend_on. destruct (f_st _); try reflexivity. destruct (k_must _); [|reflexivity].
       cbn [upd_task set_tasks scopes]. now rewrite fc_scopes. }
     rewrite Es. apply sc_same_refl.
-  - intros t Ht Hne. apply P4; [exact Ht|]. lia.
+  - intros t Hne. destruct (Nat.eq_dec t (ntask s)) as [->|Hd].
+    + split; [intros Ht; lia|]. intros _ _. cbn [set_running tasks]. rewrite ctl_after_park. right; right. reflexivity.
+    + apply P4. exact Hd.
 Qed.
 
 Theorem step_scope_frame s o :
@@ -509,8 +526,12 @@ Proof.
       rewrite pop_eq_frame.
       assert (P : forall t0 En, SFb (nscope s) (ntask s) t0 En s (pop s h)) by (intros; sby_eq).
       destruct h as [t|t f|c|t|f tm|c tm]; (eapply SFb_trans; [apply P|]).
-      * apply (SFb_resume (nscope s) (ntask s) (pop s (HStep t)) t None).
-      * apply (SFb_resume (nscope s) (ntask s) (pop s (HWake t f)) t (Some f)).
+      * apply (SFb_resume (nscope s) (ntask s) _ (pop s (HStep t)) t None).
+        change (tasks (pop s (HStep t))) with (tasks s). cbn [entered]. intros -> Hg.
+        destruct (k_group (tasks s t)); [reflexivity|contradiction].
+      * apply (SFb_resume (nscope s) (ntask s) _ (pop s (HWake t f)) t (Some f)).
+        change (tasks (pop s (HWake t f))) with (tasks s). cbn [entered]. intros -> Hg.
+        destruct (k_group (tasks s t)); [reflexivity|contradiction].
       * cbn [fst]. speel SFb_set_running. speel SFb_deliver_top. sby_eq.
       * cbn [fst]. apply SFb_run_task_done.
       * cbn [fst]. apply SFb_fc.
